@@ -79,6 +79,8 @@ def gen_progs(rng, tier):
                      ["createfile 2:j61", "hwrite 1000 78", "removefile 2:j61"], "pbound 2,6000"),
     }
     for cname, (cfg, target, setup, mode) in stale.items():
+        if tier == "quick":
+            mode = {"explore 20000": "explore 5000", "pbound 2,6000": "pbound 2,2500"}[mode]
         h = 1001 if cname == "altstale" else 1000
         for i, (first, paths) in enumerate([(["hdrop %d" % h], ["a/b/c", "a/d"]), (["hflush %d" % h, "hdrop %d" % h], ["a", "a/b"]),
                                             (["hdrop %d" % h], ["a/b"])]):
